@@ -71,11 +71,28 @@ def _chown_tree(root, uid):
     os.lchown(root, uid, uid)
 
 
+def _others_can_reach(path):
+    p = os.path.abspath(path)
+    while True:
+        try:
+            if not (os.stat(p).st_mode & 0o001):
+                return False
+        except OSError:
+            pass
+        if p == "/":
+            return True
+        p = os.path.dirname(p)
+
+
 def run(cut, tree, argv, stdin=b"", tty=None, uid=0, env=None, timeout=8, strace=None, sanitize=False, keep=False, exe=None, root_owned=()):
     """tree: Tree; argv: list of bytes (without argv[0]); tty: None (no controlling terminal) or list of answer byte strings.
     strace: None | {'trace': True} | {'inject': 'write:error=ENOSPC:when=3'}"""
-    os.makedirs(BOXROOT, exist_ok=True)
-    top = tempfile.mkdtemp(prefix="b", dir=BOXROOT)
+    base = BOXROOT
+    if uid != 0 and not _others_can_reach(BOXROOT):
+        # (the tree of checks may sit under a directory other users can not enter - a snapshot under /root, say)
+        base = os.path.join(tempfile.gettempdir(), "verif-box")
+    os.makedirs(base, exist_ok=True)
+    top = tempfile.mkdtemp(prefix="b", dir=base)
     root = os.path.join(top, "w")
     tmpd = os.path.join(top, "tmp")
     os.makedirs(root); os.makedirs(tmpd)
@@ -101,6 +118,8 @@ def run(cut, tree, argv, stdin=b"", tty=None, uid=0, env=None, timeout=8, strace
     if env:
         e.update(env)
     exe = exe or os.path.join(cut, "sb_patch")
+    if uid != 0 and not _others_can_reach(os.path.dirname(exe)):
+        shutil.copy(exe, os.path.join(top, "sb_patch")); exe = os.path.join(top, "sb_patch"); os.chmod(exe, 0o755)
     cmd = [exe.encode()] + list(argv)
     logf = None
     if strace:
